@@ -23,6 +23,7 @@ Oracle (differential, no hand-written expectations):
       equals the outcome in the projection of the history onto A's events (factoring argument).
 """
 
+import gc
 import hashlib
 import importlib
 import json
@@ -758,6 +759,7 @@ def _worker(items):
     """items: (job id, names tuple, first event, depth).  The pool worker itself never executes an
     event (it stays a pristine root image); only forked children do."""
     entries()
+    gc.freeze()  # fewer copy-on-write faults in the forked images
     part = Part()
     tables = {}
     for jid, names, first, depth in items:
